@@ -82,11 +82,19 @@ class Ledger:
         self.samples.append({"rule": rule, "instance": str(construct), "loc": loc, "status": "refuted", "detail": f.detail[:300], "witness": witness})
         return f
 
+    NOT_UNDERSTOOD = ("not found", "not recognised", "not understood")
+
     def check(self, cond, rule, instance, detail_ok="", detail_fail="", loc="", witness=None):
         if cond:
             self.ok(rule, instance, detail_ok, loc)
         else:
-            self.fail(rule, instance, detail_fail or detail_ok, loc, witness)
+            msg = detail_fail or detail_ok
+            if any(msg.rstrip().endswith(k) for k in self.NOT_UNDERSTOOD):
+                # the rule did not find the construct it reasons about: that is "no verdict", not a refutation
+                from .model import AnalysisError
+
+                raise AnalysisError(f"{self.prop}.{rule} {instance}: {msg}")
+            self.fail(rule, instance, msg, loc, witness)
         return bool(cond)
 
     def floor(self, rule, what, count, floor):
